@@ -147,7 +147,7 @@ Lemma raw_numeric_advances e c x c' : raw_numeric e c = Ok (x, c') -> advances c
 Proof.
   unfold raw_numeric. destruct (ne_kind e).
   - destruct (read_as_int c (ne_size e)) as [[v c1]|] eqn:R; cbn [bind]; [|discriminate].
-    apply read_int_advance in R as [Hn ->]. intro H. injection H as _ <-. split; cbn; auto; lia.
+    apply read_int_advance in R as [Hn ->]. destruct (signed && (ne_size e <? 1)); [discriminate|]. intro H. injection H as _ <-. split; cbn; auto; lia.
   - destruct (read_as_bytes c (ne_size e)) as [[v c1]|] eqn:R; cbn [bind]; [|discriminate].
     apply read_bytes_advance in R as (Hn & -> & _).
     destruct fmt.
